@@ -779,6 +779,52 @@ def _shard_lengths(arg):
 
 
 # ---------------------------------------------------------------------------
+# Part B2: seeks in a long stream (several I/O buffer sizes long)
+# ---------------------------------------------------------------------------
+LONG_LEN = 9000
+LONG_POS = [0, 1, 10, 511, 512, 4095, 4096, 4097, 8191, 8192, 8193, 8990]
+
+
+def long_data():
+    return bytes(((i * 7) ^ (i >> 8) ^ (i >> 3)) & 0xFF for i in range(LONG_LEN))
+
+
+def long_seek_case(p1, p2, p3):
+    """seek(p1) read; seek(p2) read 2 bytes + 3 bits; seek(p3) read: values and positions."""
+    I = impl()
+    data = long_data()
+    r = I.Reader(io.BytesIO(data))
+    problems = []
+    for k, (p, nbytes) in enumerate(((p1, 1), (p2, 2), (p3, 1))):
+        r.seek(p, 7)
+        got = r.read_nbits(8 * nbytes)
+        want = int.from_bytes(data[p : p + nbytes], "big")
+        if got != want or r.tell() != (p + nbytes, 7):
+            problems.append("long stream: after seeks %r, read %d byte(s) at byte %d -> %#x at %r, the file holds %#x" % ([p1, p2, p3][: k + 1], nbytes, p, got, r.tell(), want))
+            break
+        got3 = r.read_nbits(3)
+        if got3 != data[p + nbytes] >> 5:
+            problems.append("long stream: 3 bits after byte %d -> %d, the file holds %d" % (p + nbytes - 1, got3, data[p + nbytes] >> 5))
+            break
+    return problems
+
+
+def _shard_long(arg):
+    offset, stride = arg
+    t = Tally()
+    cases = [(a, b, c) for a in LONG_POS for b in LONG_POS for c in LONG_POS]
+    for case in cases[offset::stride]:
+        t.n["long_seek_cases"] += 1
+        try:
+            pr = long_seek_case(*case)
+        except Exception as e:  # noqa
+            pr = ["long stream: seeks %r raised %s" % (list(case), type(e).__name__)]
+        if pr:
+            t.violation(pr[0], {"part": "long", "seeks": list(case)})
+    return t
+
+
+# ---------------------------------------------------------------------------
 # Part C: operation histories
 # ---------------------------------------------------------------------------
 # machines: "writer", "reader", "decoder".  Ops are plain tuples.
@@ -1241,13 +1287,15 @@ def run(ctx):
                     total.n.pop("bfs_root_cut:1", 0)
                     total.n.pop("bfs_root_cut:2", 0)
 
-    fns = {"readers": _shard_readers, "writer": _shard_writer, "lengths": _shard_lengths, "history": _shard_history}
+    for w in range(16):
+        shards.append(("long", (w, 16)))
+    fns = {"readers": _shard_readers, "writer": _shard_writer, "lengths": _shard_lengths, "history": _shard_history, "long": _shard_long}
 
     def dispatch(s):
         return fns[s[0]](s[1])
 
     # heaviest first (reader shards), rotated by the seed within each group
-    order = {"readers": 0, "history": 1, "writer": 2, "lengths": 3}
+    order = {"readers": 0, "history": 1, "writer": 2, "lengths": 3, "long": 4}
     groups = {}
     for s in shards:
         groups.setdefault(s[0], []).append(s)
@@ -1363,6 +1411,8 @@ def replay_case(case):
         op = _tup(case["op"])
         problems, _ = writer_case(case["start"], case["block"], op)
         return problems
+    if part == "long":
+        return long_seek_case(*case["seeks"])
     if part == "length":
         return length_case(int(case["value"]))
     if part == "history":
